@@ -907,7 +907,17 @@ class World:
         src_h = refs[0].get("t") if refs else None
         foreign = out_arr is not None
         orig_w = bool(sout.flags.writeable) if out_arr is None else self.a_orig[out_arr]
-        if self.tracking and od.view_capable and (od.rearrange or (od.name == "einsum" and len(refs) == 1)) and src_h is not None:
+        same_obj = bool(self.tracking and od.view_capable and src_h is not None and t.data is self.T[src_h].data and t.base is None)
+        if same_obj:
+            # NumPy handed back the operand array itself (squeeze with nothing to squeeze) and MyGrad
+            # did not register the result as a view: two tensors around one array that do not know
+            # of each other.  Listed finding; from here on the model follows MyGrad.
+            self.violation("C04", "C04.base", f"step {self.nstep} (op:{od.name}): handle {h} wraps the very array of handle {src_h} but .base is None", tag=f"C04.base/view_wrong_base/op:{od.name}/same_array_object")
+            foreign = True
+            for ki in self.info.values():
+                ki.foreign = True  # the consequences (values, sharing, gradients) are not judged again in this run
+            self.grad_poisoned = True
+        if self.tracking and od.view_capable and (od.rearrange or (od.name == "einsum" and len(refs) == 1)) and src_h is not None and not same_obj:
             ssrc = self.S[src_h]
             # NumPy says the result is a view of the operand (the same test MyGrad applies to the
             # real arrays; np.shares_memory cannot tell for empty results)
@@ -1076,12 +1086,30 @@ class World:
         else:
             self._after_untracked_write(h, phys_before)
         del t
+        if self.tracking:
+            self._same_array_check(list(info.fam.members), f"inplace:{form}")
         self._resync()
         self.h_update(np.asarray(self.T[h].data))
         if self.tracking and self._own_ancestor(self.T[h]):
             self.graph_cycle_seen = True
             self.probe("graph_cycle_created_by_inplace")
         return Outcome("ok")
+
+    def _same_array_check(self, hs, evt):
+        """after MyGrad re-created a family: a member whose replayed view op handed back the base's
+        array itself (squeeze with nothing to squeeze) is not registered as a view - the listed C04
+        finding; nothing that follows from it is judged again in this run"""
+        for k in hs:
+            t = self.T.get(k)
+            if t is None or t.base is not None or not t.data.size:
+                continue
+            if any(x is not t and x.data is t.data for x in self.T.values()):
+                self.violation("C04", "C04.base", f"step {self.nstep} ({evt}): handle {k} wraps the very array of another tensor but .base is None", tag=f"C04.base/view_wrong_base/{evt}/same_array_object")
+                for ki in self.info.values():
+                    ki.foreign = True
+                self.grad_poisoned = True
+                return True
+        return False
 
     @staticmethod
     def _own_ancestor(t0, limit=400):
